@@ -165,7 +165,13 @@ def run_case(case, acc):
         g.add_node(u, **(dict(NLABELS[lab]) if lab else {}))
     for u, v, lab in case['edges']:
         g.add_edge(u, v, **(dict(ELABELS[lab]) if lab else {}))
-    g.initial_nodes = set(case['initial'])
+    # the documented way (`g.initial_nodes.add(u)`, doc/doc.md) for two
+    # graphs of three, a fresh set for the third
+    if (len(case['edges']) + len(case['initial'])) % 3:
+        for u in case['initial']:
+            g.initial_nodes.add(u)
+    else:
+        g.initial_nodes = set(case['initial'])
     with warnings.catch_warnings():
         warnings.simplefilter('ignore')
         aut = lg.graph_to_logic(
@@ -232,7 +238,7 @@ def run_case(case, acc):
             # never initial (without ignore_initial)
             exp = bool(case['ignore_initial'])
         else:
-            exp = (case['ignore_initial'] or nd in g.initial_nodes) and \
+            exp = (case['ignore_initial'] or nd in case['initial']) and \
                 holds(nlab[nd], env)
         if (row in I) != exp:
             acc.violation('initial_condition_differs_from_graph', case,
